@@ -1,8 +1,349 @@
-(* Proofs/TilingFacts.v — facts about Model/Tiling.v (tile_unit_cell over the generated helpers). *)
-From Coq Require Import List ZArith Bool Arith Lia.
+(* Proofs/TilingFacts.v — facts about Model/Tiling.v (tile_unit_cell over the GENERATED helpers
+   py_next_cell_number / py_crossing of Gen/TilingGen.v). *)
+From Coq Require Import List ZArith Bool Arith Lia ZifyBool FinFun.
 From Koala Require Import Gen.TilingGen Model.Lattice Model.Tiling.
 Import ListNotations.
 Open Scope Z_scope.
 
+(* ------------------------------------------------------------------ zrange / znth *)
 Lemma zrange_length n : length (zrange n) = Z.to_nat n.
 Proof. unfold zrange. now rewrite map_length, seq_length. Qed.
+
+Lemma zlen_zrange n : 0 <= n -> zlen (zrange n) = n.
+Proof. intros. unfold zlen. rewrite zrange_length. lia. Qed.
+
+Lemma nth_zrange n i d : (i < Z.to_nat n)%nat -> nth i (zrange n) d = Z.of_nat i.
+Proof.
+  intros Hi. unfold zrange.
+  rewrite nth_indep with (d' := Z.of_nat 0) by (rewrite map_length, seq_length; lia).
+  rewrite map_nth, seq_nth by lia. reflexivity.
+Qed.
+
+Lemma znth_zrange n i d : 0 <= i < n -> znth i (zrange n) d = i.
+Proof. intros Hi. unfold znth. rewrite nth_zrange by lia. lia. Qed.
+
+Lemma In_zrange n x : In x (zrange n) <-> 0 <= x < n.
+Proof.
+  unfold zrange. rewrite in_map_iff. split.
+  - intros (k & <- & Hk). apply in_seq in Hk. lia.
+  - intros Hx. exists (Z.to_nat x). split; [lia|]. apply in_seq. lia.
+Qed.
+
+Lemma zrange_S n : 0 <= n -> zrange (n + 1) = zrange n ++ [n].
+Proof.
+  intros Hn. unfold zrange. replace (Z.to_nat (n + 1)) with (S (Z.to_nat n)) by lia.
+  rewrite seq_S, map_app. simpl. f_equal. f_equal. lia.
+Qed.
+
+Lemma NoDup_zrange n : NoDup (zrange n).
+Proof.
+  unfold zrange. apply Injective_map_NoDup; [|apply seq_NoDup].
+  intros a b Hab. lia.
+Qed.
+
+(* ------------------------------------------------------------------ flat_map with blocks of one length *)
+Lemma flat_map_const_length {A B} (f : A -> list B) (l : list A) (k : nat) :
+  (forall x, In x l -> length (f x) = k) -> length (flat_map f l) = (length l * k)%nat.
+Proof.
+  induction l as [|a l IH]; intros H; simpl; [reflexivity|].
+  rewrite app_length. rewrite (H a) by (simpl; auto). rewrite IH by (intros; apply H; simpl; auto). reflexivity.
+Qed.
+
+Lemma nth_flat_map_const {A B} (f : A -> list B) (l : list A) (k m e : nat) (d : B) (da : A) :
+  (forall x, In x l -> length (f x) = k) -> (m < length l)%nat -> (e < k)%nat ->
+  nth (m * k + e) (flat_map f l) d = nth e (f (nth m l da)) d.
+Proof.
+  revert m. induction l as [|a l IH]; intros m H Hm He; simpl in *; [lia|].
+  destruct m as [|m].
+  - simpl. rewrite app_nth1 by (rewrite H by auto; lia). reflexivity.
+  - rewrite app_nth2 by (rewrite H by auto; simpl; lia).
+    rewrite H by auto. replace (S m * k + e - k)%nat with (m * k + e)%nat by (simpl; lia).
+    apply IH; auto; lia.
+Qed.
+
+Lemma combine_flat_map {A B C} (f : A -> list B) (g : A -> list C) (l : list A) :
+  (forall x, In x l -> length (f x) = length (g x)) ->
+  combine (flat_map f l) (flat_map g l) = flat_map (fun x => combine (f x) (g x)) l.
+Proof.
+  induction l as [|a l IH]; intros H; simpl; [reflexivity|].
+  rewrite <- IH by (intros; apply H; simpl; auto).
+  generalize (H a (or_introl eq_refl)). generalize (f a) (g a). clear.
+  induction l0 as [|x xs IHx]; intros [|y ys] Hl; simpl in *; try discriminate; [reflexivity|].
+  f_equal. apply IHx. lia.
+Qed.
+
+(* znth in a flat_map over zrange *)
+Lemma znth_flat_map_zrange {B} (f : Z -> list B) (N k m e : Z) (d : B) :
+  (forall x, 0 <= x < N -> zlen (f x) = k) -> 0 <= m < N -> 0 <= e < k ->
+  znth (m * k + e) (flat_map f (zrange N)) d = znth e (f m) d.
+Proof.
+  intros H Hm He. unfold znth.
+  replace (Z.to_nat (m * k + e)) with (Z.to_nat m * Z.to_nat k + Z.to_nat e)%nat by nia.
+  rewrite nth_flat_map_const with (da := 0).
+  - rewrite nth_zrange by lia. f_equal. f_equal. lia.
+  - intros x Hx. apply In_zrange in Hx. specialize (H x Hx). unfold zlen in H. lia.
+  - rewrite zrange_length. lia.
+  - lia.
+Qed.
+
+Lemma zlen_flat_map_zrange {B} (f : Z -> list B) (N k : Z) :
+  0 <= N -> 0 <= k -> (forall x, 0 <= x < N -> zlen (f x) = k) -> zlen (flat_map f (zrange N)) = N * k.
+Proof.
+  intros HN Hk H. unfold zlen.
+  rewrite flat_map_const_length with (k := Z.to_nat k).
+  - rewrite zrange_length. nia.
+  - intros x Hx. apply In_zrange in Hx. specialize (H x Hx). unfold zlen in H. lia.
+Qed.
+
+Lemma zlen_map {A B} (f : A -> B) l : zlen (map f l) = zlen l.
+Proof. unfold zlen. now rewrite map_length. Qed.
+
+Lemma znth_map {A B} (f : A -> B) l i d d' : 0 <= i < zlen l -> znth i (map f l) d = f (znth i l d').
+Proof.
+  intros Hi. unfold znth, zlen in *.
+  rewrite nth_indep with (d' := f d') by (rewrite map_length; lia). apply map_nth.
+Qed.
+
+Lemma znth_combine {A B} (l : list A) (l' : list B) i da db :
+  0 <= i < zlen l -> zlen l = zlen l' -> znth i (combine l l') (da, db) = (znth i l da, znth i l' db).
+Proof. intros Hi Hl. unfold znth, zlen in *. apply combine_nth. lia. Qed.
+
+Lemma zlen_combine {A B} (l : list A) (l' : list B) : zlen l = zlen l' -> zlen (combine l l') = zlen l.
+Proof. unfold zlen. rewrite combine_length. lia. Qed.
+
+(* ------------------------------------------------------------------ cell coordinates *)
+(* cell number n = my*nx + mx  <->  (mx, my) = (n mod nx, n / nx) *)
+Lemma cell_div nx mx my : 0 <= mx < nx -> (my * nx + mx) / nx = my.
+Proof. intros H. rewrite Z.add_comm, Z.div_add by lia. rewrite Z.div_small by lia. lia. Qed.
+Lemma cell_mod nx mx my : 0 <= mx < nx -> (my * nx + mx) mod nx = mx.
+Proof. intros H. rewrite Z.add_comm, Z.mod_add by lia. apply Z.mod_small; lia. Qed.
+Lemma cell_range nx ny mx my : 0 <= mx < nx -> 0 <= my < ny -> 0 <= my * nx + mx < nx * ny.
+Proof. intros; nia. Qed.
+Lemma cell_decompose nx ny n : 1 <= nx -> 0 <= n < nx * ny ->
+  n = (n / nx) * nx + n mod nx /\ 0 <= n mod nx < nx /\ 0 <= n / nx < ny.
+Proof.
+  intros Hx Hn. pose proof (Z.div_mod n nx ltac:(lia)). pose proof (Z.mod_pos_bound n nx ltac:(lia)).
+  split; [lia|]. split; [lia|]. split; [apply Z.div_pos; lia|]. apply Z.div_lt_upper_bound; lia.
+Qed.
+
+(* ------------------------------------------------------------------ the generated helpers *)
+(* _next_cell_number moves cell (mx, my) to ((mx+cx) mod nx, (my+cy) mod ny) *)
+Lemma next_cell_number_spec nx ny mx my cx cy :
+  1 <= nx -> 0 <= mx < nx ->
+  py_next_cell_number nx ny (my * nx + mx) (cx, cy) = ((my + cy) mod ny) * nx + (mx + cx) mod nx.
+Proof.
+  intros Hx Hm. unfold py_next_cell_number. cbn [fst snd].
+  rewrite cell_div by lia.
+  replace (my * nx + mx + cx) with (mx + cx + my * nx) by lia.
+  rewrite Z.mod_add by lia. reflexivity.
+Qed.
+
+Lemma next_cell_number_range nx ny n c :
+  1 <= nx -> 1 <= ny -> 0 <= py_next_cell_number nx ny n c < nx * ny.
+Proof.
+  intros Hx Hy. unfold py_next_cell_number.
+  pose proof (Z.mod_pos_bound (n / nx + snd c) ny ltac:(lia)).
+  pose proof (Z.mod_pos_bound (n + fst c) nx ltac:(lia)). nia.
+Qed.
+
+(* wrap indicator: for a step c in {-1,0,1} from x in [0,n), (x + c) / n is -1, 0 or +1 *)
+Lemma wrap_indicator n x c : 1 <= n -> 0 <= x < n -> -1 <= c <= 1 ->
+  (x + c) / n = (if x + c <? 0 then -1 else if n <=? x + c then 1 else 0).
+Proof.
+  intros Hn Hx Hc.
+  destruct (Z.ltb_spec (x + c) 0).
+  - symmetry. apply Z.div_unique with (r := x + c + n); lia.
+  - destruct (Z.leb_spec n (x + c)).
+    + symmetry. apply Z.div_unique with (r := x + c - n); lia.
+    + apply Z.div_small. lia.
+Qed.
+
+(* _crossing returns the wrap indicator of (m + c), componentwise *)
+Lemma crossing_spec nx ny mx my cx cy :
+  1 <= nx -> 1 <= ny -> 0 <= mx < nx -> 0 <= my < ny -> -1 <= cx <= 1 -> -1 <= cy <= 1 ->
+  py_crossing nx ny (my * nx + mx) (cx, cy) = ((mx + cx) / nx, (my + cy) / ny).
+Proof.
+  intros Hx Hy Hmx Hmy Hcx Hcy. unfold py_crossing. cbn [fst snd].
+  rewrite cell_div, cell_mod by lia.
+  rewrite (Z.div_small mx nx), (Z.div_small my ny) by lia.
+  rewrite (wrap_indicator nx mx cx), (wrap_indicator ny my cy) by lia.
+  unfold b2z. f_equal.
+  - destruct (Z.ltb_spec (mx + cx) 0); [simpl; lia|].
+    destruct (Z.leb_spec nx (mx + cx)); simpl; lia.
+  - destruct (Z.ltb_spec (my + cy) 0); [simpl; lia|].
+    destruct (Z.leb_spec ny (my + cy)); simpl; lia.
+Qed.
+
+(* shifting by c and then by -c is the identity on cell numbers: _next_cell_number is a bijection *)
+Lemma mod_shift_back n x c : 1 <= n -> 0 <= x < n -> ((x + c) mod n + - c) mod n = x.
+Proof.
+  intros Hn Hx. rewrite Zplus_mod_idemp_l. replace (x + c + - c) with x by lia. apply Z.mod_small; lia.
+Qed.
+
+Lemma next_cell_number_inv nx ny n c :
+  1 <= nx -> 1 <= ny -> 0 <= n < nx * ny ->
+  py_next_cell_number nx ny (py_next_cell_number nx ny n c) (- fst c, - snd c) = n.
+Proof.
+  intros Hx Hy Hn. destruct c as [cx cy].
+  destruct (cell_decompose nx ny n Hx Hn) as (En & Hmx & Hmy).
+  rewrite En at 1. rewrite next_cell_number_spec by lia.
+  rewrite next_cell_number_spec by (try apply Z.mod_pos_bound; lia).
+  cbn [fst snd]. rewrite !mod_shift_back by lia. lia.
+Qed.
+
+Lemma next_cell_number_inv' nx ny n c :
+  1 <= nx -> 1 <= ny -> 0 <= n < nx * ny ->
+  py_next_cell_number nx ny (py_next_cell_number nx ny n (- fst c, - snd c)) c = n.
+Proof.
+  intros Hx Hy Hn. pose proof (next_cell_number_inv nx ny n (- fst c, - snd c) Hx Hy Hn) as H.
+  cbn [fst snd] in H. rewrite !Z.opp_involutive in H. destruct c; exact H.
+Qed.
+
+(* for cells n, m in range: next(n, c) = m  <->  n = next(m, -c) *)
+Lemma next_cell_number_iff nx ny n m c :
+  1 <= nx -> 1 <= ny -> 0 <= n < nx * ny -> 0 <= m < nx * ny ->
+  (py_next_cell_number nx ny n c = m <-> n = py_next_cell_number nx ny m (- fst c, - snd c)).
+Proof.
+  intros Hx Hy Hn Hm. split; intros H.
+  - rewrite <- H. symmetry. apply next_cell_number_inv; lia.
+  - rewrite H. apply next_cell_number_inv'; lia.
+Qed.
+
+(* ------------------------------------------------------------------ tile_structure *)
+Lemma wf_cell_spec c : wf_cell c = true ->
+  0 < uc_scale c /\ zlen (uc_edges c) = zlen (uc_crossing c) /\
+  (forall e, 0 <= e < n_uedges c ->
+     -1 <= fst (znth e (uc_crossing c) (0,0)) <= 1 /\ -1 <= snd (znth e (uc_crossing c) (0,0)) <= 1) /\
+  (forall e, 0 <= e < n_uedges c ->
+     0 <= fst (znth e (uc_edges c) (0,0)) < n_sites c /\ 0 <= snd (znth e (uc_edges c) (0,0)) < n_sites c).
+Proof.
+  unfold wf_cell. rewrite !andb_true_iff. intros (((H1 & H2) & H3) & H4).
+  split; [lia|]. split; [unfold zlen; apply Nat.eqb_eq in H2; lia|].
+  rewrite forallb_forall in H3, H4. apply Nat.eqb_eq in H2. split.
+  - intros e He. unfold n_uedges, zlen in He.
+    assert (Hin : In (znth e (uc_crossing c) (0,0)) (uc_crossing c)) by (apply nth_In; lia).
+    specialize (H3 _ Hin). unfold small_crossing in H3. lia.
+  - intros e He. unfold n_uedges, zlen in He.
+    assert (Hin : In (znth e (uc_edges c) (0,0)) (uc_edges c)) by (apply nth_In; lia).
+    specialize (H4 _ Hin). lia.
+Qed.
+
+Lemma tile_edges_length c nx ny : 0 <= nx * ny -> zlen (uc_edges c) = zlen (uc_crossing c) ->
+  zlen (tile_edges c nx ny) = nx * ny * n_uedges c.
+Proof.
+  intros HN Hl. unfold tile_edges. apply zlen_flat_map_zrange; [lia|unfold n_uedges, zlen; lia|].
+  intros x _. rewrite zlen_map, zlen_combine by assumption. reflexivity.
+Qed.
+Lemma tile_crossings_length c nx ny : 0 <= nx * ny -> zlen (uc_edges c) = zlen (uc_crossing c) ->
+  zlen (tile_crossings c nx ny) = nx * ny * n_uedges c.
+Proof.
+  intros HN Hl. unfold tile_crossings. apply zlen_flat_map_zrange; [lia|unfold n_uedges, zlen; lia|].
+  intros x _. rewrite zlen_map, zlen_combine by assumption. reflexivity.
+Qed.
+Lemma tile_sites_length c nx ny : 0 <= nx * ny -> zlen (tile_sites c nx ny) = nx * ny * n_sites c.
+Proof.
+  intros HN. unfold tile_sites. apply zlen_flat_map_zrange; [lia|unfold n_sites, zlen; lia|].
+  intros x _. now rewrite zlen_map.
+Qed.
+Lemma tile_coloring_length col nx ny : 0 <= nx * ny -> zlen (tile_coloring col nx ny) = nx * ny * zlen col.
+Proof.
+  intros HN. unfold tile_coloring. apply zlen_flat_map_zrange; [lia|unfold zlen; lia|]. reflexivity.
+Qed.
+
+Lemma tile_edges_nth c nx ny n e :
+  zlen (uc_edges c) = zlen (uc_crossing c) -> 0 <= n < nx * ny -> 0 <= e < n_uedges c ->
+  znth (n * n_uedges c + e) (tile_edges c nx ny) (0,0)
+  = tile_edge nx ny (n_sites c) n (znth e (uc_edges c) (0,0), znth e (uc_crossing c) (0,0)).
+Proof.
+  intros Hl Hn He. unfold tile_edges.
+  rewrite znth_flat_map_zrange with (N := nx * ny) (k := n_uedges c); try lia.
+  - rewrite znth_map with (d' := ((0,0),(0,0))) by (rewrite zlen_combine by assumption; exact He).
+    rewrite znth_combine by (assumption || exact He). reflexivity.
+  - intros x _. rewrite zlen_map, zlen_combine by assumption. reflexivity.
+Qed.
+Lemma tile_crossings_nth c nx ny n e :
+  zlen (uc_edges c) = zlen (uc_crossing c) -> 0 <= n < nx * ny -> 0 <= e < n_uedges c ->
+  znth (n * n_uedges c + e) (tile_crossings c nx ny) (0,0)
+  = py_crossing nx ny n (znth e (uc_crossing c) (0,0)).
+Proof.
+  intros Hl Hn He. unfold tile_crossings.
+  rewrite znth_flat_map_zrange with (N := nx * ny) (k := n_uedges c); try lia.
+  - rewrite znth_map with (d' := ((0,0),(0,0))) by (rewrite zlen_combine by assumption; exact He).
+    rewrite znth_combine by (assumption || exact He). reflexivity.
+  - intros x _. rewrite zlen_map, zlen_combine by assumption. reflexivity.
+Qed.
+Lemma tile_sites_nth c nx ny n s :
+  0 <= n < nx * ny -> 0 <= s < n_sites c ->
+  znth (n * n_sites c + s) (tile_sites c nx ny) (0,0) = tile_site c nx n (znth s (uc_points c) (0,0)).
+Proof.
+  intros Hn Hs. unfold tile_sites.
+  rewrite znth_flat_map_zrange with (N := nx * ny) (k := n_sites c); try lia.
+  - now rewrite znth_map with (d' := (0,0)) by exact Hs.
+  - intros x _. now rewrite zlen_map.
+Qed.
+Lemma tile_coloring_nth col nx ny n e d :
+  0 <= n < nx * ny -> 0 <= e < zlen col ->
+  znth (n * zlen col + e) (tile_coloring col nx ny) d = znth e col d.
+Proof.
+  intros Hn He. unfold tile_coloring.
+  rewrite znth_flat_map_zrange with (N := nx * ny) (k := zlen col); try lia; reflexivity.
+Qed.
+
+(* The structure theorem of tile_unit_cell (C10 and C08), for ALL nx, ny >= 1 and every well-formed
+   unit cell (crossings in {-1,0,1}^2): exactly nx*ny copies; copy (mx,my) of site s sits at
+   ((p_s + (mx,my)) / (nx,ny)); copy (mx,my) of edge e = (j,k) with crossing (cx,cy) joins site j of
+   cell (mx,my) to site k of cell ((mx+cx) mod nx, (my+cy) mod ny), and its crossing is the wrap
+   indicator ((mx+cx) div nx, (my+cy) div ny). *)
+Theorem tile_structure (c : unit_cell) (nx ny : Z) :
+  1 <= nx -> 1 <= ny -> wf_cell c = true ->
+  let T := tile_unit_cell c nx ny in
+  let ns := n_sites c in
+  let ne := n_uedges c in
+  z_scale T = uc_scale c * nx * ny /\
+  zlen (z_pos T) = nx * ny * ns /\ zlen (z_edges T) = nx * ny * ne /\ zlen (z_crossing T) = nx * ny * ne /\
+  (forall mx my s, 0 <= mx < nx -> 0 <= my < ny -> 0 <= s < ns ->
+     znth ((my * nx + mx) * ns + s) (z_pos T) (0,0)
+     = ((fst (znth s (uc_points c) (0,0)) + mx * uc_scale c) * ny,
+        (snd (znth s (uc_points c) (0,0)) + my * uc_scale c) * nx)) /\
+  (forall mx my e, 0 <= mx < nx -> 0 <= my < ny -> 0 <= e < ne ->
+     let j := fst (znth e (uc_edges c) (0,0)) in
+     let k := snd (znth e (uc_edges c) (0,0)) in
+     let cx := fst (znth e (uc_crossing c) (0,0)) in
+     let cy := snd (znth e (uc_crossing c) (0,0)) in
+     znth ((my * nx + mx) * ne + e) (z_edges T) (0,0)
+       = (j + (my * nx + mx) * ns, k + (((my + cy) mod ny) * nx + (mx + cx) mod nx) * ns) /\
+     znth ((my * nx + mx) * ne + e) (z_crossing T) (0,0) = ((mx + cx) / nx, (my + cy) / ny)).
+Proof.
+  intros Hx Hy Hwf. cbv zeta.
+  destruct (wf_cell_spec c Hwf) as (HS & Hl & Hcr & Hed).
+  assert (HN : 0 <= nx * ny) by nia.
+  split; [reflexivity|].
+  split; [unfold tile_unit_cell; cbn [z_pos]; rewrite zlen_map; now apply tile_sites_length|].
+  split; [now apply tile_edges_length|].
+  split; [now apply tile_crossings_length|].
+  split.
+  - intros mx my s Hmx Hmy Hs. unfold tile_unit_cell. cbn [z_pos].
+    pose proof (cell_range nx ny mx my Hmx Hmy) as Hn.
+    rewrite znth_map with (d' := (0,0)) by (rewrite tile_sites_length by lia; nia).
+    rewrite tile_sites_nth by assumption. unfold tile_site. cbn [fst snd].
+    rewrite cell_div, cell_mod by lia. reflexivity.
+  - intros mx my e Hmx Hmy He.
+    pose proof (cell_range nx ny mx my Hmx Hmy) as Hn.
+    unfold tile_unit_cell. cbn [z_edges z_crossing].
+    destruct (Hcr e He) as (Hcx & Hcy).
+    rewrite tile_edges_nth, tile_crossings_nth by assumption.
+    destruct (znth e (uc_crossing c) (0,0)) as [cx cy]. cbn [fst snd] in *.
+    unfold tile_edge. cbn [fst snd].
+    rewrite next_cell_number_spec by lia. split; [f_equal; lia|].
+    apply crossing_spec; assumption.
+Qed.
+
+(* the tiled colouring gives copy (n, e) the colour of e *)
+Theorem tile_coloring_structure (col : list Z) (nx ny : Z) :
+  1 <= nx -> 1 <= ny ->
+  zlen (tile_coloring col nx ny) = nx * ny * zlen col /\
+  forall n e, 0 <= n < nx * ny -> 0 <= e < zlen col ->
+    znth (n * zlen col + e) (tile_coloring col nx ny) 0 = znth e col 0.
+Proof.
+  intros Hx Hy. split; [apply tile_coloring_length; nia|]. intros. now apply tile_coloring_nth.
+Qed.
